@@ -23,23 +23,36 @@
        to a directory under (or leading to) a rule's directory;
    (5) every sub-map and handle records its containing map and its name.
 
-   C16_population_mirrors_tree proves all of it for every well-formed case
-   outside the two known findings.  The proof goes through a path-level
-   view of the C11 store (which paths from the populated map lead to a map,
-   and the column of handles under a key): uniqueness of paths, frame
-   lemmas for every step of __setitem__ and for the new layer, and the
-   absence of file / directory key clashes from wf_b.  The earlier partial
-   theorem (clauses (1), (2), (5)) is kept below. *)
+   Across populations of the same map (other directory trees through root=,
+   other populators) a name may change sides - a file in one tree, a
+   directory in another - and the latest population wins (C11): a name that
+   is now a directory on the way to an accepted file has lost its handles in
+   every layer, whatever lay below a name that is now a file is gone, and
+   for a name that is now a directory leading to no accepted file the
+   property leaves open whether it became a sub-map.  Within one population
+   a name is a file or a directory (wf_b).
+
+   C16_population_mirrors_tree_noclash proves all of [holds] for every
+   well-formed sequence of populations in which no name changes sides
+   (noclash_b), outside the two known findings.  For sequences in which a
+   name does change sides, [holds] is evaluated on every observed case and
+   the clauses (1), (2), (5) are proved (C16_population_mirrors_tree_partial,
+   all well-formed cases); (3) and (4) are not proved there.  The proof goes
+   through a path-level view of the C11 store (which paths from the
+   populated map lead to a map, and the column of handles under a key):
+   uniqueness of paths, frame lemmas for every step of __setitem__ and for
+   the new layer. *)
 From Coq Require Import ZArith List Bool String.
 From Desper Require Import Lib.Alist Tree.C11Model Tree.C16Model Tree.C16Proofs Tree.C16Log Tree.C16Main
      Tree.C16Final.
 Import ListNotations.
 Open Scope Z_scope.
 
-Theorem C16_population_mirrors_tree :
-  forall c : C16_case, wf_b c = true -> known_b c = false -> accepts c = true -> holds c.
-Proof. intros c Hwf Hk Hacc. exact (accepts_holds_full c Hwf Hk Hacc). Qed.
-Print Assumptions C16_population_mirrors_tree.
+Theorem C16_population_mirrors_tree_noclash :
+  forall c : C16_case, wf_b c = true -> noclash_b c = true -> known_b c = false ->
+                       accepts c = true -> holds c.
+Proof. intros c Hwf Hn Hk Hacc. exact (accepts_holds_noclash c Hwf Hn Hk Hacc). Qed.
+Print Assumptions C16_population_mirrors_tree_noclash.
 
 Theorem C16_population_mirrors_tree_partial :
   forall c : C16_case, wf_b c = true -> known_b c = false -> accepts c = true ->
